@@ -42,6 +42,17 @@ class Geo:
         self.name = name if isinstance(name, str) else 'poly'
         self.pieces = None
         self.polygon = False
+        if name == 'Bessel':
+            # closed convex curve with tangent angle s + 0.45 sin 2s (arc-length parametrised, curvature 1 + 0.9 cos 2s
+            # varies along the single piece); only used where no reference geometry is needed (C20)
+            self.circle = False
+            self.closed = True
+            self.L = 2 * PI
+            self.breaks = np.array([0.0, self.L])
+            self.n_sides = 1
+            self.verts = None
+            self.pieces = [{'kind': 'smooth', 'len': self.L}]
+            return
         if isinstance(name, str) and name in MIXED:
             self.circle = False
             self.closed = True
@@ -88,6 +99,8 @@ class Geo:
         if self.pieces is not None and self.pieces[side]['kind'] == 'arc':
             r = self.pieces[side]['r']
             return 'circle' if r == 1.0 else 'arc%r' % r
+        if self.pieces is not None and self.pieces[side]['kind'] == 'smooth':
+            raise NotImplementedError('no reference geometry for the smooth curve')
         return 'straight'
 
     def straight(self, side):
